@@ -170,6 +170,11 @@ int unjoined_threads(); // DONE but neither joined nor detached, plus not DONE
 struct PageInfo { void *p; size_t size; };
 const std::vector<PageInfo> &live_pages();
 uint64_t pages_allocated_total();
+// page recycling: memory the code under test gave back with free() is kept (contents intact, as with a real malloc) and may be
+// handed out again, to posix_memalign or - through take_recycled_page() - to the simulated parent allocator
+void set_page_recycling(bool on);
+void *take_recycled_page();
+size_t recycled_pages();
 
 // push_ref failure injection (C07/C08): called by the wrapper
 bool pushref_should_fail();
